@@ -3,8 +3,9 @@
    spec_ok                 the component order / constants read from rust.rs are the ones the proofs below are about
    key_injective           equal pre-images => equal shlib digests, argument string, file digests, environment
                            entries and (cwd, rustc -vV) tail
-   args_injective          (fixed code) equal argument strings => equal argument pieces
-   arg_concat_old_refuted  (old code, no terminator) different pieces, equal strings
+   arg_concat_refuted      the argument string is a plain concatenation: different pieces, equal strings (C05-S22)
+   args_injective_guarded  equal argument strings => equal pieces WHEN the pieces have the same lengths one by one
+   terminated_inj          (what a NUL terminator would give: kept as a lemma, not true of the code)
    order_insensitive       permuting the --cfg pairs does not change the argument string
    excluded_args_unhashed  --extern / -L / --out-dir pairs do not reach the argument string *)
 From Coq Require Import List NArith PeanoNat Bool Lia ZifyBool Permutation Sorted.
@@ -26,7 +27,7 @@ Definition spec_side_conditions : bool :=
 
 Lemma spec_ok :
   hash_spec = expected_spec /\
-  arg_terminator = [0] /\
+  arg_terminator = [] /\
   env_dep_set_marker = [61] /\ env_dep_unset_marker = Some [0] /\ env_dep_unset_is_none = true /\
   cargo_separator = [61] /\
   arg_excluded = [bs "--extern"; bs "-L"; bs "--out-dir"] /\
@@ -262,24 +263,39 @@ Proof.
     apply nul_split in H as [E R]; [|assumption|assumption]. subst. f_equal. apply IH; assumption.
 Qed.
 
-Theorem args_injective : forall tj1 a1 tj2 a2,
-  pieces_nul_free (arg_pieces tj1 a1) = true -> pieces_nul_free (arg_pieces tj2 a2) = true ->
-  arg_string tj1 a1 = arg_string tj2 a2 -> arg_pieces tj1 a1 = arg_pieces tj2 a2.
+Lemma arg_string_concat tj a : arg_string tj a = concat (arg_pieces tj a).
 Proof.
-  intros tj1 a1 tj2 a2 N1 N2 H. unfold arg_string in H.
-  destruct spec_ok as (_ & Ht & _). rewrite Ht in H. apply terminated_inj; assumption.
+  unfold arg_string, terminated. destruct spec_ok as (_ & Ht & _). rewrite Ht.
+  induction (arg_pieces tj a) as [|p l IH]; [reflexivity|]. cbn [flat_map concat]. rewrite IH, app_nil_r. reflexivity.
 Qed.
 
-(* the code before the fix concatenated the pieces without a terminator *)
-Theorem arg_concat_old_refuted :
+(* the code concatenates the hashed arguments without a delimiter: two command lines that rustc accepts and
+   treats differently (`-C metadata=a -C metadata=b` gives two metadata strings, `-C metadata=a-Cmetadata=b`
+   one) have different pieces and the same argument string, hence the same key *)
+Theorem arg_concat_refuted :
   exists a1 a2 : list pair,
     arg_pieces false a1 <> arg_pieces false a2 /\
     pieces_nul_free (arg_pieces false a1) = true /\ pieces_nul_free (arg_pieces false a2) = true /\
-    terminated [] (arg_pieces false a1) = terminated [] (arg_pieces false a2).
+    arg_string false a1 = arg_string false a2.
 Proof.
   exists [(bs "-C", Some (bs "metadata=a")); (bs "-C", Some (bs "metadata=b"))],
          [(bs "-C", Some (bs "metadata=a-Cmetadata=b"))].
   split; [vm_compute; discriminate|]. vm_compute. repeat split.
+Qed.
+
+(* the confusion needs a boundary to move: with the same piece lengths the string determines the pieces *)
+Lemma concat_same_lengths (l1 : list bytes) : forall l2,
+  map (@length N) l1 = map (@length N) l2 -> concat l1 = concat l2 -> l1 = l2.
+Proof.
+  induction l1 as [|p1 l1 IH]; intros [|p2 l2] Hl H; cbn [map concat] in *; try discriminate; [reflexivity|].
+  injection Hl as Hp Hr. apply app_eq_len in H as [E R]; [|exact Hp]. subst. f_equal. apply IH; assumption.
+Qed.
+
+Theorem args_injective_guarded : forall tj1 a1 tj2 a2,
+  map (@length N) (arg_pieces tj1 a1) = map (@length N) (arg_pieces tj2 a2) ->
+  arg_string tj1 a1 = arg_string tj2 a2 -> arg_pieces tj1 a1 = arg_pieces tj2 a2.
+Proof.
+  intros tj1 a1 tj2 a2 Hl H. rewrite !arg_string_concat in H. apply concat_same_lengths; assumption.
 Qed.
 
 (* ------------------------------------------------------------------ orders *)
